@@ -4,6 +4,7 @@ C42 — CCF round-trips, is canonical in deterministic mode, and never crashes.
 Model: Verif.Model.Codec.Cbor (CBOR data items <-> bytes, the subset CCF uses) and
 Verif.Model.Codec.Ccf (port of the encoder of encoding/ccf: collection and sorting of type
 definitions, inline types, type values, values, the sorters), over Verif.Model.Codec.CValue.
+Decoder: Verif.Model.Codec.CcfDecode (port of decode.go / decode_type.go / decode_typedef.go on CBOR items).
 Tie: FX table Verif.Gen.CcfTags (tag numbers and simple type ids from the running code) + stream `ccf`
 (Go bytes = model bytes in default and deterministic mode on every generated value; Go decoders judged
 against the spec: decoded value = value up to what CCF does not carry, permutations encode
@@ -13,8 +14,11 @@ Only statements and their final proofs live here; lemmas are in Verif.Proofs.Cod
 import Verif.Proofs.Codec.Sort
 import Verif.Proofs.Codec.Canonical
 import Verif.Proofs.Codec.Cbor
+import Verif.Proofs.Codec.CcfRt
 namespace Verif.Properties.C42
 open Verif.Model.Codec Verif.Model.Codec.Ccf Verif.Proofs.Codec.Sort Verif.Proofs.Codec.Canonical
+open Verif.Model.Codec.CcfDecode (DMode decodeMsgF decodeMsg)
+open Verif.Model.Codec.CcfDecode.Rt (Fits canonV vdepth outOfOrder strOutOfOrder)
 
 /-- FX obligation: the CBOR tag numbers of the running code (`ccf.CBORTag`, by stringer name) are the
 pinned ones the model uses. -/
@@ -133,11 +137,126 @@ theorem sorted_output_is_ordered {α} (le : α → α → Bool)
     (trans : ∀ a b c, le a b = true → le b c = true → le a c = true) (l : List α) :
     (sortBy le l).Pairwise (fun a b => le a b = true) := sortBy_pairwise le total trans l
 
+/-- FX obligation: the simple type ids of the running code and the primitive types they stand for are in
+bijection (the decoder's `typeBySimpleTypeID` is the inverse of the encoder's table). -/
+theorem simple_types_bijective : Verif.Proofs.Codec.CcfRt.tableBijective = true :=
+  Verif.Proofs.Codec.CcfRt.tableBijective_ok
+
 /-
-Not yet theorems (no Lean port of decode.go / decode_type.go / decode_typedef.go exists):
-`roundtrip` (decode (encode v) = ok v up to what CCF does not carry), `strict_accepts_own`,
-`strict_rejects_unsorted`, `decode_total`, `cbor_roundtrip`.  Each is checked on the Go code by the
-stream `ccf` against the encoder model and the spec (ops `rt`, `strict`, `mutb`).
+Full statements (DESIGN §6 C42), for every value `v` with complete type information:
+  `roundtrip`: `decode dm (encode m v) = ok v'` with `v'` equal to `v` up to the order of dictionary entries
+  (and up to what CCF does not carry: `eraseV`) and of equal type;
+  `strict_accepts_own`: `decode DMode.strict (encode Mode.deterministic v)` succeeds;
+  `strict_rejects_unsorted`: an encoding with dictionary entries / intersection members / entitlements /
+  fields / type definitions out of order is rejected.
+Proved below on the subset `Fits` (scalars of every integer kind, Fix64 / UFix64, strings, characters,
+addresses, paths, capabilities, optionals, arrays, dictionaries, inclusive ranges, at static types built from
+simple types with optionals, arrays, dictionaries, ranges, capabilities, references; the recorded known
+findings are excluded by the predicate: no function values, and a value encoded as nil is the nil its
+static type determines).  Missing: composite values and type definitions, type values, Fix128 / UFix128,
+abstract static types (run-time type tags), intersections and entitlement sets with several members in types
+of values; and the fuel of `decodeMsg` (`msgFuel`, the size of the item) is not proved sufficient: the
+theorems are about `decodeMsgF` with any fuel above the nesting of the value.  The stream `ccf` compares
+`ccf.Decode` with the port (MODELDIFF) and with the spec on every generated value of every kind.
 -/
+
+/-- Round trip on the subset `Fits` without composite types, for every encoder mode and every decoder
+mode: the message decodes to the value with every dictionary's entries in the order of the encoded keys
+(`canonV`), which has the same type. -/
+theorem roundtrip_partial (m : Mode) (dm : DMode) (v : CValue) (hf : Fits v v.typeOf) (hc : collect v = []) :
+    ∃ x, encodeItem m v = .ok x ∧
+      (∀ fuel, vdepth v < fuel → decodeMsgF dm fuel x = .ok (canonV m [] v)) ∧
+      (canonV m [] v).typeOf = v.typeOf := by
+  obtain ⟨x, hx, hd⟩ := Verif.Model.Codec.CcfDecode.Rt.rt_msg m dm v hf hc
+  exact ⟨x, hx, hd, Verif.Model.Codec.CcfDecode.Rt.canonV_typeOf m [] v⟩
+
+example : Fits (.dict (.dict (.prim "String") (.opt (.prim "Int8")))
+    (.cons (.str "b") (.some (.int "Int8" (-128))) (.cons (.str "a") .none .nil)))
+    (.dict (.prim "String") (.opt (.prim "Int8"))) := by
+  simp [Fits, Verif.Model.Codec.CcfDecode.Rt.FitsPs, dictKeyType, dictValType, Verif.Model.Codec.CcfDecode.Rt.encNil,
+    Verif.Model.Codec.CcfDecode.nilOptional]
+  decide
+
+/-- "Equal up to the order of dictionary entries": the entries of the decoded dictionary are a
+permutation of the (recursively canonical) entries. -/
+theorem roundtrip_dictionary_is_permutation (m : Mode) (t : CType) (kvs : Pairs) :
+    ∃ l : List (List UInt8 × (CValue × CValue)), canonV m [] (.dict t kvs) = .dict t (Pairs.ofList (l.map (·.2))) ∧
+      l.Perm (Verif.Model.Codec.CcfDecode.Rt.keyedPs m [] (dictKeyType t) kvs) :=
+  ⟨sortBy (fun a b => bytesLe a.1 b.1) (Verif.Model.Codec.CcfDecode.Rt.keyedPs m [] (dictKeyType t) kvs),
+    by simp [canonV], sortBy_perm _ _⟩
+
+/-- The bytes: a well-formed message item is read back from its bytes, so `decode` on the bytes is
+`decodeMsg` on the item (with `cbor_roundtrip`). -/
+theorem decode_bytes (dm : DMode) (x : Cbor) (hw : x.wf = true) :
+    Verif.Model.Codec.CcfDecode.decode dm (Cbor.encode x) = decodeMsg dm x :=
+  Verif.Model.Codec.CcfDecode.Rt.decode_bytes dm x hw
+
+/-- The strict decoder accepts every deterministic-mode encoding, on the subset of `roundtrip_partial`. -/
+theorem strict_accepts_own_partial (v : CValue) (hf : Fits v v.typeOf) (hc : collect v = []) :
+    ∃ x, encodeItem Mode.deterministic v = .ok x ∧
+      ∀ fuel, vdepth v < fuel → decodeMsgF DMode.strict fuel x = .ok (canonV Mode.deterministic [] v) := by
+  obtain ⟨x, hx, hd, _⟩ := roundtrip_partial Mode.deterministic DMode.strict v hf hc
+  exact ⟨x, hx, hd⟩
+
+/-- Every decoder mode rejects a dictionary value in which some key's raw bytes are smaller than those
+of the key before it (`bytes.Compare(previous, key) <= 0` is required), whatever the rest of the
+encoding; equal adjacent keys are not out of order (see `duplicate_keys_accepted_witness`).  Stated for the
+dictionary construct; not lifted through an arbitrary enclosing message. -/
+theorem strict_rejects_unsorted_dictionary_partial (dm : DMode) (tbl : Verif.Model.Codec.CcfDecode.Table)
+    (fuel : Nat) (kt vt : CType) (xs : List Cbor) (h : outOfOrder [] xs) (v : CValue) :
+    Verif.Model.Codec.CcfDecode.decodeValue dm tbl fuel (.dict kt vt) (.arr xs) ≠ .ok v :=
+  Verif.Model.Codec.CcfDecode.Rt.decodeDict_outOfOrder dm tbl fuel kt vt xs h v
+
+example : outOfOrder [] [.text "b", .uint 0, .text "a", .uint 1] := by
+  simp [outOfOrder, bytesLe]
+  decide
+
+/-- With the sort options enforced, the checks on intersection members, field names and entitlements
+(`stringsAreSortedBytewise`: strictly increasing, length first) reject every sequence with a member that
+is not strictly after the one before it.  Stated for the checks; not lifted through the type decoders. -/
+theorem strict_rejects_unsorted_members_partial (ids : List String) (prev : String) (seen : List String)
+    (h : strOutOfOrder prev ids) :
+    Verif.Model.Codec.CcfDecode.checkMembers true ids prev seen = false ∧
+    Verif.Model.Codec.CcfDecode.checkNames true ids prev seen = false ∧
+    ∀ r, Verif.Model.Codec.CcfDecode.entitlements true (ids.map Cbor.text) prev seen ≠ .ok r :=
+  ⟨Verif.Model.Codec.CcfDecode.Rt.checkMembers_outOfOrder ids prev seen h,
+   Verif.Model.Codec.CcfDecode.Rt.checkNames_outOfOrder ids prev seen h,
+   Verif.Model.Codec.CcfDecode.Rt.entitlements_outOfOrder ids prev seen h⟩
+
+example : strOutOfOrder "" ["S.test.X", "S.a.X"] := by
+  simp [strOutOfOrder, Verif.Model.Codec.CcfDecode.strSorted]
+  decide
+
+/-- Witness (the code as it is): a dictionary with the same key twice in a row is accepted by the strict
+decoder — equal keys are not out of order for `bytes.Compare <= 0`; CCF leaves the rejection of
+duplicate keys to the application ("Decoders are not always required to check for duplicate
+dictionary keys"). -/
+theorem duplicate_keys_accepted_witness :
+    Verif.Model.Codec.CcfDecode.decodePairs DMode.strict [] 1 (.prim "UInt8") (.prim "UInt8") []
+      [.uint 1, .uint 0, .uint 1, .uint 2] =
+    .ok (.cons (.int "UInt8" 1) (.int "UInt8" 0) (.cons (.int "UInt8" 1) (.int "UInt8" 2) .nil)) := by
+  have h : ∀ n : Nat, n < 256 → Verif.Model.Codec.CcfDecode.decodeValue DMode.strict [] 1 (.prim "UInt8") (.uint n) =
+      .ok (.int "UInt8" (Int.ofNat n)) := by
+    intro n hn
+    rw [Verif.Model.Codec.CcfDecode.decodeValue]
+    have : Int.ofNat n ≤ 255 := by simp only [Int.ofNat_eq_natCast]; omega
+    simp [Verif.Model.Codec.CcfDecode.simpleValue, Verif.Model.Codec.CcfDecode.isBigKind,
+      Verif.Model.Codec.CcfDecode.isInt64Kind, Verif.Model.Codec.CcfDecode.isUint64Kind,
+      Verif.Model.Codec.CcfDecode.asUint, intKindOk, intRange, inRange, bind, Except.bind, pure, Except.pure]
+    omega
+  rw [Verif.Model.Codec.CcfDecode.decodePairs, Verif.Model.Codec.CcfDecode.decodePairs,
+    Verif.Model.Codec.CcfDecode.decodePairs]
+  have e1 := h 1 (by omega); have e0 := h 0 (by omega); have e2 := h 2 (by omega)
+  simp [Verif.Model.Codec.CcfDecode.rawSorted, bytesLe, Cbor.encode, Cbor.head, e0, e1, e2, bind, Except.bind, pure,
+    Except.pure]
+
+/-- Decoding is total: the port of the decoder is a terminating function into value-or-error (no
+partiality: every malformed head, tag, length or type is an error value; Go panics carrying an `error`
+are recovered by `Decoder.Decode`). -/
+theorem decode_total (dm : DMode) (bs : List UInt8) :
+    (∃ v, Verif.Model.Codec.CcfDecode.decode dm bs = .ok v) ∨ (∃ e, Verif.Model.Codec.CcfDecode.decode dm bs = .error e) := by
+  cases h : Verif.Model.Codec.CcfDecode.decode dm bs with
+  | ok v => exact .inl ⟨v, rfl⟩
+  | error e => exact .inr ⟨e, rfl⟩
 
 end Verif.Properties.C42
